@@ -1,6 +1,6 @@
 #!/usr/bin/env python3
 """BOUNDED stand-in (not a proof) for FEEL equality (eval_ternary_equality and the operators built on it), which also stands in when
-the extraction of that function is undecided: every ordered pair from a 40-value alphabet (null, booleans, numbers incl. equal numbers
+the extraction of that function is undecided: every ordered pair from a 46-value alphabet (null - written and produced by an evaluation, bare and inside lists / contexts -, booleans, numbers incl. equal numbers
 spelled differently, strings, dates, durations, lists incl. nested ones, contexts with the key sets {}, {a}, {b}, {a, b} and nested
 ones) under `=`, `!=` and `list contains`, against a reference written out from DMN 1.3 section 10.3.2.15 / Table 53: values of
 different kinds do not compare (null), null equals only null, numbers by value, lists item by item in order (same length), contexts
@@ -21,7 +21,9 @@ N2 = ('n', 2)
 
 
 def alphabet():
-    a = [('null', ('null',)), ('true', ('b', True)), ('false', ('b', False)),
+    # (a null that an evaluation PRODUCED carries a diagnostic message inside the value: it is the same null)
+    a = [('null', ('null',)), ('substring("abc", 7)', ('null',)), ('[1, date("x")]', ('l', [N1, ('null',)])), ('[1, null]', ('l', [N1, ('null',)])), ('{a: number("x", null, null)}', ('c', {'a': ('null',)})),
+         ('{a: null}', ('c', {'a': ('null',)})), ('true', ('b', True)), ('false', ('b', False)),
          ('1', N1), ('1.0', N1), ('1.00', N1), ('2', N2), ('0.5', ('n', 0.5)), ('-1', ('n', -1)),
          ('"a"', ('s', 'a')), ('"b"', ('s', 'b')), ('""', ('s', '')), ('"1"', ('s', '1')),
          ('date("2020-01-02")', ('d', '2020-01-02')), ('date("2020-01-03")', ('d', '2020-01-03')),
